@@ -18,14 +18,17 @@ ASSUMPTIONS = [
 
 def run(ctx):
     binary = vlib.build_harness(ctx, "h-sim")
-    consts = dict(Reqs={1, 2}, TmoTicks={0, 1, 4}, MaxFaults=2, MaxTicks=6) if ctx.tier == "quick" else dict(Reqs={1, 2, 3}, TmoTicks={0, 1, 4}, MaxFaults=2, MaxTicks=5)
+    consts = dict(Reqs={1, 2}, TmoTicks={0, 1, 4}, MaxFaults=2, MaxTicks=6) if ctx.tier == "quick" else dict(Reqs={1, 2, 3}, TmoTicks={0, 1, 4}, MaxFaults=2, MaxTicks=4)
     invs = ["C14_AtMostOnce", "C14_Outcome", "C14_ReplyMeansHandled", "C14_TimeoutBound", "C14_NoFaultNoFailure"]
     mc_cfg = vlib.cfg_text(constants=dict(consts, EmitSched=False), invariants=invs)
     mc, text = vlib.run_tlc(ctx, "RpcNet", mc_cfg, "mc", workers=8, timeout=3000, xmx="10g")
     if not vlib.require_clean_mc(ctx, mc, text, "RpcNet"):
         raise vlib.ToolError("RpcNet.tla violates %s: specification error" % mc["violated"])
     ctx.log("RpcNet: %d states, %d transitions" % (mc["distinct"], mc["generated"]))
-    gen_cfg = vlib.cfg_text(constants=dict(consts, EmitSched=True), constraints=["Emit"])
+    # the schedules that are executed come from the two-request universe (with one more timeout value in the thorough tier);
+    # the three-request universe of the thorough tier is model checked only - its schedules would fill the disk
+    gen_consts = consts if ctx.tier == "quick" else dict(Reqs={1, 2}, TmoTicks={0, 1, 2, 4}, MaxFaults=2, MaxTicks=6)
+    gen_cfg = vlib.cfg_text(constants=dict(gen_consts, EmitSched=True), constraints=["Emit"])
     sched_file = ctx.path("sched.out")
     gen, gtext = vlib.run_tlc(ctx, "RpcNet", gen_cfg, "gen", workers=1, timeout=3000, stdout_to=sched_file, xmx="10g")
     if gen["distinct"] is None or gen["errors"]:
